@@ -94,7 +94,7 @@ def _repo_frames(tb):
     return out
 
 
-def safe_run(mod, case, hang_s=20.0):
+def safe_run(mod, case, hang_s=10.0):
     """Execute one case. Returns the property module's result dict.
 
     A Hang, or an exception that escapes the harness with a frame of the code under test on its
@@ -477,7 +477,7 @@ def run_check(pid, tier, base_seed, runs=None, budget=None, jobs=None):
         def submit():
             nonlocal nxt
             while nxt < len(starts) and len(pending) < jobs * 2:
-                if time.time() - t0 > cfg['budget_s']:
+                if nxt > 0 and time.time() - t0 > cfg['budget_s']:
                     return
                 s = starts[nxt]
                 pending.add(ex.submit(_work, (pid, tier, base_seed, s, min(total, s + chunk),
